@@ -14,6 +14,7 @@ GNext ==
         \/ \E c \in All : BeginTx(c) /\ H("begin", c)
         \/ \E c \in All : EndTx(c) /\ H("end", c)
         \/ \E c \in All : Leave(c) /\ H("leave", c)
+        \/ (Len(SelectSeq(hist, LAMBDA h : h.op = "cancel")) < 2 /\ CancelConn /\ H("cancel", ""))
         \/ Sigint /\ H("sigint", "")
         \/ Sigterm /\ H("sigterm", "")
   \/ /\ (\/ \E c \in All : Startup(c) \/ Observe(c)
